@@ -580,18 +580,63 @@ func (w *World) IsDone(rq *Req) bool {
 	return rq.Done
 }
 
+// progress waits until the request is done ("done"), has a parked operation
+// ("pending"), or cannot move because another request is parked ("blocked").
+// A request that is neither done nor parked while nothing else is parked is
+// simply still running (the runtime showed it in a transient blocked state,
+// e.g. an internal lock under load): wait for it.
+func (w *World) progress(rq *Req) string {
+	for i := 0; i < 20000; i++ {
+		w.Settle()
+		if w.IsDone(rq) {
+			return "done"
+		}
+		if len(w.PendingOf(rq)) > 0 {
+			return "pending"
+		}
+		if len(w.Pending()) > 0 {
+			return "blocked"
+		}
+		time.Sleep(500 * time.Microsecond)
+	}
+	return "stuck"
+}
+
+// WaitAny waits until at least one of the requests has a parked operation or
+// all of them are done, and returns the parked operations per request.
+func (w *World) WaitAny(rqs ...*Req) [][]*Op {
+	for i := 0; i < 20000; i++ {
+		w.Settle()
+		out := make([][]*Op, len(rqs))
+		all, some := true, false
+		for j, rq := range rqs {
+			if !w.IsDone(rq) {
+				all = false
+			}
+			out[j] = w.PendingOf(rq)
+			if len(out[j]) > 0 {
+				some = true
+			}
+		}
+		if all || some {
+			return out
+		}
+		time.Sleep(500 * time.Microsecond)
+	}
+	return make([][]*Op, len(rqs))
+}
+
 // Finish drives one request to completion releasing its own operations.
 func (w *World) Finish(rq *Req) bool {
 	for i := 0; i < 100000; i++ {
-		w.Settle()
-		if w.IsDone(rq) {
+		switch w.progress(rq) {
+		case "done":
 			return true
-		}
-		p := w.PendingOf(rq)
-		if len(p) == 0 {
+		case "pending":
+			w.Release(w.PendingOf(rq)[0], OK)
+		default:
 			return false
 		}
-		w.Release(p[0], OK)
 	}
 	return false
 }
@@ -599,16 +644,12 @@ func (w *World) Finish(rq *Req) bool {
 // Steps releases at most n of the request's operations.
 func (w *World) Steps(rq *Req, n int) int {
 	for i := 0; i < n; i++ {
-		w.Settle()
-		if w.IsDone(rq) {
+		if w.progress(rq) != "pending" {
 			return i
 		}
-		p := w.PendingOf(rq)
-		if len(p) == 0 {
-			return i
-		}
-		w.Release(p[0], OK)
+		w.Release(w.PendingOf(rq)[0], OK)
 	}
+	w.progress(rq)
 	return n
 }
 
